@@ -9,6 +9,7 @@ thread_local! {
     static NEXT_WAKE: Cell<Option<u64>> = const { Cell::new(None) };
     static NOW_CALLS: Cell<u64> = const { Cell::new(0) };
     static NOW_LIMIT: Cell<u64> = const { Cell::new(u64::MAX) };
+    static ORIGIN: Cell<u64> = const { Cell::new(0) };
 }
 
 struct SimDriver;
@@ -42,8 +43,16 @@ pub const US_PER_MS: u64 = 1_000;
 pub fn now() -> u64 {
     NOW.with(|n| n.get())
 }
+/// The instant at which this run's clock starts (swarm parameter: 0 in most runs, otherwise just
+/// below a 32-bit microsecond/millisecond wrap or far out).
+pub fn set_origin(o: u64) {
+    ORIGIN.with(|x| x.set(o));
+}
+pub fn origin() -> u64 {
+    ORIGIN.with(|x| x.get())
+}
 pub fn reset() {
-    NOW.with(|n| n.set(0));
+    NOW.with(|n| n.set(ORIGIN.with(|x| x.get())));
     NEXT_WAKE.with(|w| w.set(None));
     NOW_CALLS.with(|c| c.set(0));
     NOW_LIMIT.with(|l| l.set(u64::MAX));
